@@ -19,7 +19,7 @@ Section listops.
   Lemma vcond_abs_sound c e st0 st ph b : phase_ok ph e st0 st →
     vcond_abs c (facts_for e st0) ph = Some b → v_cond c e st = b.
   Proof.
-    intros (Hs & _ & Hph). revert b. induction c as [| |c IH|a IHa b0 IHb|a IHa b0 IHb]; intros b; simpl.
+    intros (Hs & _ & Hph). revert b. induction c as [| |c IH|a IHa b0 IHb|a IHa b0 IHb|s]; intros b; simpl.
     - intros [= <-]. by rewrite Hs.
     - destruct ph; [| |done]; intros [= <-]; by rewrite Hph.
     - destruct (vcond_abs c _ _) as [x|]; [|done]. simpl. intros [= <-]. by rewrite (IH x).
@@ -27,6 +27,7 @@ Section listops.
       intros [= <-]. by rewrite (IHa x), (IHb y).
     - destruct (vcond_abs a _ _) as [x|]; [|done]. destruct (vcond_abs b0 _ _) as [y|]; [|done].
       intros [= <-]. by rewrite (IHa x), (IHb y).
+    - done.
   Qed.
 
   Lemma v_act_phase a e st0 st ph : phase_ok ph e st0 st → phase_ok (vphase_after a ph) e st0 (v_act fold a e st).
@@ -136,3 +137,11 @@ Proof.
     apply elem_of_elements in HI. revert HI.
     match goal with |- _ ∈ ?l → _ => replace l with (@nil nat) by (vm_compute; reflexivity) end. set_solver.
 Qed.
+
+(** Round 5: "still listed" read from a flag cached on the entity object: state the model does not have; no fact decides
+    the condition, so no path obligation of remove_ent holds for it. *)
+Lemma remove_cached_flag_refuted :
+  remove_worldspawn_stays_indexed remove_ent_cached_flag = false ∧
+  remove_still_listed_stays_indexed remove_ent_cached_flag = false ∧
+  remove_unlists_and_unindexes remove_ent_cached_flag = false.
+Proof. repeat split; reflexivity. Qed.
